@@ -85,6 +85,8 @@ def build_cores(spec):
             # identity-dominant operator cores: generically well-conditioned micro systems for the solvers
             c = 0.2 * c
             c[0, :, :, 0] += np.eye(rows[i])
+        if spec.get("int_storage") and vals[i] == "ints" and not cplx_per_core[i] and not spec.get("neardiag"):
+            c = c.astype(np.int64)      # integer-valued cores handed over as int64 arrays (e.g. 0/1 gate tensors)
         cores.append(relayout(c, lay[i]))
     scale = spec.get("scale")
     if scale:
@@ -146,5 +148,6 @@ def rand_spec(rnd, order=None, kind=None, max_order=4, max_rank=6, layouts=("C",
                   else ("c16" if rnd.random() < cplx_p else "f8")),
         "layout": [rnd.choice(layouts) for _ in range(order)],
         "vals": [rnd.choice(VALS) if vals is None else vals for _ in range(order)],
+        "int_storage": rnd.random() < 0.2,
         "sub_seed": rnd.getrandbits(48),
     }
